@@ -1,6 +1,7 @@
 package main
 
 import (
+	"runtime/pprof"
 	"encoding/json"
 	"flag"
 	"fmt"
@@ -21,6 +22,16 @@ func main() {
 		return
 	}
 	startHelper()
+	if pf := os.Getenv("GOVC_PROFILE"); pf != "" {
+		f, _ := os.Create(pf)
+		pprof.StartCPUProfile(f)
+		go func() {
+			time.Sleep(40 * time.Second)
+			pprof.StopCPUProfile()
+			f.Close()
+			os.Exit(3)
+		}()
+	}
 	switch os.Args[1] {
 	case "verify":
 		cmdVerify(os.Args[2:])
